@@ -71,3 +71,34 @@ func (r *ChunkReader) Read(p []byte) (int, error) {
 	}
 	return n, nil
 }
+
+// Carve copies segs into one canary-filled buffer and returns sub-slices
+// with cap == len, so that any over-slice panics and any slice handed out by
+// the library can be range-checked by address.
+func Carve(segs [][]byte) (out [][]byte, backing []byte) {
+	total := 64
+	for _, s := range segs {
+		total += len(s) + 64
+	}
+	backing = make([]byte, total)
+	for i := range backing {
+		backing[i] = 0xCA
+	}
+	pos := 64
+	out = make([][]byte, len(segs))
+	for i, s := range segs {
+		copy(backing[pos:], s)
+		out[i] = backing[pos : pos+len(s) : pos+len(s)]
+		pos += len(s) + 64
+	}
+	return out, backing
+}
+
+// CloneSegs deep-copies segments.
+func CloneSegs(segs [][]byte) [][]byte {
+	out := make([][]byte, len(segs))
+	for i, s := range segs {
+		out[i] = append([]byte(nil), s...)
+	}
+	return out
+}
